@@ -223,6 +223,17 @@ class ExprMixin:
         return self.bind(self.eval(e.value, st), k)
 
     def e_IfExp(self, e, st):
+        if self.spec_mode:
+            c = z3.simplify(Tr(self.eval1(e.test, st)))
+            if z3.is_true(c):
+                return self.eval(e.body, st)
+            if z3.is_false(c):
+                return self.eval(e.orelse, st)
+            a, b = lift(self.eval1(e.body, st)), lift(self.eval1(e.orelse, st))
+            if is_z3(a) and is_z3(b) and a.sort() == b.sort():
+                return [(st, z3.If(c, a, b))]
+            raise Unsupported("conditional expression with branches of different kinds in a specification")
+
         def k(s, c):
             out = []
             for s2, b in self.fork(s, Tr(c)):
@@ -512,6 +523,11 @@ class ExprMixin:
                 return v.d[kk.as_string()]
             self.vc(s, z3.BoolVal(False), "safety", "dict literal key", node.lineno)
             return Exc("KeyError", node.lineno)
+        if isinstance(v, PyObj) and v.cls == "EPStack":
+            if not (z3.is_int_value(z3.simplify(i)) and z3.simplify(i).as_long() == -1):
+                raise Unsupported("only the top frame of end_progs is modelled")
+            self.safety(s, v.fields["n"] > 0, f"subscript `{ast.unparse(node)[:60]}` on a non-empty list (IndexError)", node)
+            return v.fields["top"]
         if isinstance(v, PyConst) and v.name == "Token":
             return token_named(i)
         if is_tok(v):
